@@ -7,7 +7,51 @@
 (***************************************************************************)
 EXTENDS Events
 
-PairObservers == {"Union", "Inter", "Diff", "CovDiff", "UnionMut", "InterMut", "DiffMut", "CovDiffMut", "Eq"}
+PairObservers == {"Union", "Inter", "Diff", "CovDiff", "UnionMut", "InterMut", "DiffMut", "CovDiffMut", "Eq", "PairWrite"}
+
+(***************************************************************************)
+(* C13 for the _mut set operations: hold every yielded item, write through *)
+(* the mutable references of the k-th item (all items for k = 0), and look *)
+(* at both maps afterwards.  Item j of the run hands out a reference into  *)
+(* L at slot sl and / or into R at slot sr (0 = none).                     *)
+(***************************************************************************)
+RECURSIVE Shape2(_)
+Shape2(t) == IF t = <<>> THEN <<>> ELSE <<t[1], Shape2(t[4]), Shape2(t[5])>>
+MutSlots(A, B, op, la, lb) ==
+    CASE op = "UnionMut"   -> UnionSlots(A, B, la, lb)
+      [] op = "InterMut"   -> LET u == InterFull(A, B, la, lb) IN [i \in 1..Len(u) |-> [l |-> u[i].sl, r |-> u[i].sr]]
+      [] op = "DiffMut"    -> LET u == DiffFull(A, B, la, lb) IN [i \in 1..Len(u) |-> [l |-> u[i].sl, r |-> 0]]
+      [] op = "CovDiffMut" -> LET u == CovDiffFull(A, B, la, lb) IN [i \in 1..Len(u) |-> [l |-> u[i].sl, r |-> 0]]
+FlipSlots(m, S) == [m EXCEPT !.a = [i \in DOMAIN m.a |-> IF i \in S THEN [m.a[i] EXCEPT !.v = Flip(@)] ELSE m.a[i]]]
+PairWriteRun(A, B, e) ==
+    LET la == ViewAt(A, e.qa)
+        lb == ViewAt(B, e.qb)
+    IN IF la = <<>> \/ lb = <<>> THEN <<>>
+       ELSE LET sl == MutSlots(A, B, e.op, la[1], lb[1])
+                J  == {j \in 1..Len(sl) : e.k = 0 \/ e.k = j}
+                SA == {sl[j].l : j \in J} \ {0}
+                SB == {sl[j].r : j \in J} \ {0}
+            IN <<[n |-> Len(sl), ta |-> Tree(FlipSlots(A, SA)), tb |-> Tree(FlipSlots(B, SB))]>>
+\* abstractly: exactly the entries the k-th item (or all items) names change, on the sides that are mutable
+PairWriteOK(EAll, EBll, A, B, e, ret) ==
+    LET EA == AUnder(EAll, e.qa)
+        EB == AUnder(EBll, e.qb)
+        items == CASE e.op = "UnionMut"   -> LET u == AUnion(EA, EB) IN
+                                              [i \in 1..Len(u) |-> [n |-> u[i].p.n, l |-> u[i].k \in {"L", "B"}, r |-> u[i].k \in {"R", "B"}]]
+                   [] e.op = "InterMut"   -> LET u == AIntersection(EA, EB) IN [i \in 1..Len(u) |-> [n |-> u[i].p.n, l |-> TRUE, r |-> TRUE]]
+                   [] e.op = "DiffMut"    -> LET u == ADifference(EA, EB) IN [i \in 1..Len(u) |-> [n |-> u[i].p.n, l |-> TRUE, r |-> FALSE]]
+                   [] e.op = "CovDiffMut" -> LET u == ACoveringDifference(EA, EB) IN [i \in 1..Len(u) |-> [n |-> u[i].p.n, l |-> TRUE, r |-> FALSE]]
+        J  == {j \in 1..Len(items) : e.k = 0 \/ e.k = j}
+        KA == {items[j].n : j \in {x \in J : items[x].l}}
+        KB == {items[j].n : j \in {x \in J : items[x].r}}
+        FlipE(E, K) == {IF x.n \in K THEN [x EXCEPT !.v = Flip(@)] ELSE x : x \in E}
+        RECURSIVE TE(_)
+        TE(t) == IF t = <<>> THEN {} ELSE (IF t[3] = NoVal THEN {} ELSE {[n |-> t[1], h |-> t[2], v |-> t[3]]}) \cup TE(t[4]) \cup TE(t[5])
+    IN /\ ret = <<>> => EA = {} \/ EB = {}
+       /\ ret # <<>> => /\ ret[1].n = Len(items)
+                        /\ TE(ret[1].ta) = FlipE(EAll, KA)          \* writes land exactly there ...
+                        /\ TE(ret[1].tb) = FlipE(EBll, KB)
+                        /\ Shape2(ret[1].ta) = Shape2(Tree(A)) /\ Shape2(ret[1].tb) = Shape2(Tree(B))   \* ... and change no shape
 
 \* PartialEq for PrefixMap: Iterator::eq over (prefix, value) pairs, with the key type's own
 \* equality (which, for the tuple types, compares host bits too)
@@ -16,6 +60,7 @@ EqAlg(A, B) == EqAlg1(A, B)
 \* result of a pair observer: <<>> when one of the two views does not exist
 PairObserve(A, B, e) ==
     IF e.a = "Eq" THEN B2S(EqAlg(A, B)) ELSE
+    IF e.a = "PairWrite" THEN PairWriteRun(A, B, e) ELSE
     LET la == ViewAt(A, e.qa)
         lb == ViewAt(B, e.qb)
     IN IF la = <<>> \/ lb = <<>> THEN <<>>
@@ -28,6 +73,7 @@ PairObserve(A, B, e) ==
 \* the abstract judgement (C05 - C08, C19)
 PairObserveOK(EAll, EBll, e, ret) ==
     IF e.a = "Eq" THEN ret = B2S(AEq(EAll, EBll)) ELSE
+    IF e.a = "PairWrite" THEN TRUE ELSE        \* judged by PairWriteOK (needs the maps)
     LET EA == AUnder(EAll, e.qa)
         EB == AUnder(EBll, e.qb)
     IN /\ ret = <<>> => EA = {} \/ EB = {}
